@@ -6,6 +6,7 @@ import (
 	"encoding/binary"
 	"fmt"
 	"strings"
+	"sync"
 	"testing"
 	"testing/synctest"
 	"time"
@@ -31,6 +32,10 @@ type C13Scenario struct {
 	Height    uint64      `json:"height"`
 	Peers     []Behaviour `json:"peers"`
 	TimeoutMs int         `json:"timeout_ms"`
+	// Workers > 0 selects the concurrent engine: that many callers issue PerWorker calls each on ONE Exchange whose
+	// trusted peers answer NOT_FOUND except one; every call must succeed (real goroutines, probabilistic)
+	Workers   int `json:"workers,omitempty"`
+	PerWorker int `json:"per_worker,omitempty"`
 }
 
 var c13Kinds = []string{
@@ -69,7 +74,102 @@ func c13SendsWellFormed(kind string) bool {
 
 func c13Exact(kind string) bool { return kind == bhCorrect || kind == bhSeveral }
 
+func genC13Conc(t *rapid.T) C13Scenario {
+	s := C13Scenario{
+		Method:    rapid.SampledFrom([]string{"get", "get_by_height"}).Draw(t, "method"),
+		Height:    rapid.Uint64Range(1, 20).Draw(t, "height"),
+		TimeoutMs: 2000,
+		Workers:   rapid.IntRange(4, 16).Draw(t, "workers"),
+		PerWorker: rapid.IntRange(20, 60).Draw(t, "perworker"),
+	}
+	n := rapid.IntRange(3, 5).Draw(t, "npeers")
+	good := rapid.IntRange(0, n-1).Draw(t, "good")
+	for i := 0; i < n; i++ {
+		b := Behaviour{Kind: bhNotFound}
+		if i == good {
+			b.Kind = bhCorrect
+		}
+		s.Peers = append(s.Peers, b)
+	}
+	return s
+}
+
+// runC13Conc: overlapping calls on one Exchange; exactly one trusted peer holds the header.
+func runC13Conc(t *testing.T, s C13Scenario) (res Result) {
+	bubble(t, func() {
+		const chainID = "c13"
+		chain := vh.ChainSpec{ChainID: chainID, N: 40, StartMs: -100_000}.Build()
+		ne, err := newNet(len(s.Peers) + 1)
+		if err != nil {
+			res.failf("HARNESS: mocknet: %v", err)
+			return
+		}
+		defer ne.close()
+		var ids []peer.ID
+		for i, b := range s.Peers {
+			newScriptedPeer(ne.hosts[i+1], chain, []Behaviour{b})
+			ids = append(ids, ne.hosts[i+1].ID())
+		}
+		ex, err := newClient(ne.hosts[0], ids, chainID,
+			p2p.WithRequestTimeout[p2p.ClientParameters](time.Duration(s.TimeoutMs)*time.Millisecond))
+		if err != nil {
+			res.failf("HARNESS: client: %v", err)
+			return
+		}
+		defer func() {
+			synctest.Wait()
+			c2, cn := vctx(10 * time.Second)
+			_ = ex.Stop(c2)
+			cn()
+		}()
+		if err := ne.connectAll(); err != nil {
+			res.failf("HARNESS: connect: %v", err)
+			return
+		}
+		want := chain.At(s.Height)
+		var mu sync.Mutex
+		var firstErr string
+		var wg sync.WaitGroup
+		for w := 0; w < s.Workers; w++ {
+			w := w
+			wg.Add(1)
+			go func() {
+				defer wg.Done()
+				for i := 0; i < s.PerWorker; i++ {
+					ctx, cancel := vctx(time.Minute)
+					var got *vh.Header
+					var gerr error
+					if s.Method == "get" {
+						got, gerr = ex.Get(ctx, want.Hash())
+					} else {
+						got, gerr = ex.GetByHeight(ctx, s.Height)
+					}
+					cancel()
+					if gerr != nil || !vh.Equal(got, want) {
+						mu.Lock()
+						if firstErr == "" {
+							firstErr = fmt.Sprintf("caller %d, call %d: (%v, %v)", w, i, got, gerr)
+						}
+						mu.Unlock()
+						return
+					}
+				}
+			}()
+		}
+		wg.Wait()
+		res.NonTrivial = true
+		res.label("engine=concurrent", fmt.Sprintf("workers=%d", s.Workers))
+		if firstErr != "" {
+			res.failf("%d overlapping callers on one Exchange, one of %d trusted peers holds the header and answers correctly, yet %s", s.Workers, len(s.Peers), firstErr)
+		}
+	})
+	return res
+}
+
 func runC13(t *testing.T, s C13Scenario) (res Result) {
+	if s.Workers > 0 {
+		return runC13Conc(t, s)
+	}
 	exchangeMetrics, exchangeRestart = s.Metrics, s.Restart
 	defer func() { exchangeMetrics, exchangeRestart = false, false }()
 	bubble(t, func() {
@@ -197,6 +297,7 @@ func runC13(t *testing.T, s C13Scenario) (res Result) {
 	return res
 }
 
+func TestC13Conc(t *testing.T)   { check(t, "C13", genC13Conc, runC13) }
 func TestC13(t *testing.T)       { check(t, "C13", genC13, runC13) }
 func TestC13Replay(t *testing.T) { replay(t, "C13", runC13) }
 
